@@ -37,6 +37,17 @@ pub fn kept_derives(attrs: &[Attribute], item: &Value) -> TokenStream {
             }
         }
     }
+    // R24: a field-less enum / plain struct whose source derives BOTH PartialEq and Eq and that the unit keeps both for gets
+    // Verus' `Structural` marker when the unit asks for it (`"structural": true`): the derived `==` is structural equality
+    // (std derive contract), so `a == b` in executable code means the same as in specifications.
+    if item.get("structural").and_then(|x| x.as_bool()).unwrap_or(false) {
+        let has = |n: &str| kept.iter().any(|k| k == n);
+        if has("PartialEq") && has("Eq") {
+            kept.push(id("Structural"));
+        } else {
+            fail("config", "structural: the source does not derive PartialEq and Eq (or the unit does not keep them)".into());
+        }
+    }
     if kept.is_empty() {
         quote! {}
     } else {
